@@ -196,6 +196,53 @@ theorem deny_mark_cleared_by_answer (s : State) (op : Op) (h : isAccepted (step 
   · rcases e2 with e2 | e2 <;> rw [e2] at h <;> cases h
   · exact hd
 
+/-- **C11.deny_mark_survives_kiss** — ONLY an accepted answer clears the deny mark: every other op — timers, RATE,
+    NTS-NAK and unknown KISS answers, further DENY/RSTR answers, stale / invalid / forged datagrams — leaves a set mark
+    set (aborting ops excluded). -/
+theorem deny_mark_survives_kiss (s : State) (op : Op) (hd : s.haveDeny = true)
+    (hna : isAccepted (step s op).2 = false) (hnp : isPanic (step s op).2 = false) :
+    (step s op).1.haveDeny = true := by
+  cases op with
+  | timer now d o u t =>
+    simp only [step]
+    rcases timer_cases s now d o u t with ⟨_, e⟩ | ⟨_, ⟨hn, e⟩ | ⟨st, st', hn, _, e⟩ | ⟨st, st', hn, _, e⟩ |
+        ⟨st, st', c, n, hn, _, ⟨_, e⟩ | ⟨_, e⟩⟩⟩
+    all_goals (rw [e]; exact hd)
+  | incoming now parsed a b bl =>
+    simp only [step, handleIncoming] at hna hnp ⊢
+    rcases incoming_cases true s now parsed a b bl with e | ⟨p, id, dl, _, _, _, _, _, hc⟩
+    · rw [e]; exact hd
+    · rcases hc with ⟨_, _, e⟩ | ⟨_, _, ⟨_, e⟩ | ⟨rr, _, e⟩⟩ | ⟨_, _, _, ⟨_, e⟩ | ⟨_, e⟩⟩ | ⟨_, _, _, e⟩
+      · rw [e]; exact hd
+      · rw [e]; exact hd
+      · rw [e]; exact hd
+      · rw [e]; exact hd
+      · rw [e]
+      · exfalso
+        rw [e] at hna hnp
+        rcases processMessage_out { s with proto := protoOnValid s.proto p.isUpgrade } p a b bl with ⟨u, m, k, e'⟩ | e'
+        · rw [e'] at hna; cases hna
+        · rw [e'] at hnp; cases hnp
+
+/-- **C11.deny_mark_survives_history** — along any history without an accepted answer (and without abort) a set deny
+    mark stays set; so once the source has become unreachable its timer demobilises (`reset_when_unreachable`):
+    "DENY → RATE / NAK / junk → silence" ends in `Demobilize`, not `Reset`. -/
+theorem deny_mark_survives_history (ops : List Op) (s : State) (hd : s.haveDeny = true)
+    (hna : ∀ o ∈ observations s ops, isAccepted o = false) (hnp : ∀ o ∈ observations s ops, isPanic o = false) :
+    (run s ops).1.haveDeny = true ∧
+    (Unreachable (run s ops).1 → ∀ now d o u t,
+      handleTimer (run s ops).1 now d o u t = ((run s ops).1, .demobilize)) := by
+  have key : (run s ops).1.haveDeny = true := by
+    induction ops generalizing s with
+    | nil => exact hd
+    | cons op ops ih =>
+      simp only [observations, run, List.map_cons, List.mem_cons, forall_eq_or_imp] at hna hnp ⊢
+      exact ih _ (deny_mark_survives_kiss s op hd hna.1 hnp.1) hna.2 hnp.2
+  refine ⟨key, ?_⟩
+  intro hu now d o u t
+  rw [reset_when_unreachable _ now d o u t hu, key]
+  rfl
+
 /-! #### responsive sources -/
 
 /-- a poll round: one timer op followed by incoming ops -/
@@ -410,3 +457,5 @@ end NtpVerif.C11
 #print axioms NtpVerif.C11.deny_mark_cleared_by_answer
 #print axioms NtpVerif.C11.responsive_never_reset
 #print axioms NtpVerif.C11.missed_polls_is_history
+#print axioms NtpVerif.C11.deny_mark_survives_kiss
+#print axioms NtpVerif.C11.deny_mark_survives_history
